@@ -209,14 +209,20 @@ def run_affine(case):
     A[:3, :3] = R
     A[:3, 3] = tr
     nv = 8
-    V = g.integers(-20, 20, size=(nv, 3)).astype(np.float32)
-    T = np.array([g.choice(nv, 3, replace=False) for _ in range(6)], dtype=np.uint32)
+    # vertex arrays of any type convertible to float32 (voxel-index vertices are integers)
+    vdt = rnd.choice([np.float32, np.float32, np.float64, np.int32, np.int16, np.uint8,
+                      np.int64])
+    V = g.integers(0 if vdt == np.uint8 else -20, 20, size=(nv, 3)).astype(vdt)
+    T = np.array([g.choice(nv, 3, replace=False) for _ in range(6)],
+                 dtype=rnd.choice([np.uint32, np.uint32, np.int64, np.int32]))
     use34 = rnd.random() < 0.5
     det = float(np.linalg.det(R))
     obs = {"affine_cases": 1, "mirroring": int(det < 0), "small_det": int(abs(det) < 1e-6),
-           "triangles_checked": 0}
+           "triangles_checked": 0,
+           "integer_typed_vertices": int(np.dtype(vdt).kind in "iu")}
     v = []
-    ctx = f"mode={mode} det={det:.3g} {'3x4' if use34 else '4x4'} seed={case['seed']}"
+    ctx = (f"mode={mode} det={det:.3g} {'3x4' if use34 else '4x4'} vertices "
+           f"{np.dtype(vdt).name} seed={case['seed']}")
     V_before, T_before = V.copy(), T.copy()
     try:
         V2, T2 = M.affine_transform_mesh(V, T, A[:3] if use34 else A)
@@ -496,7 +502,8 @@ def run_links(case):
             lab = rnd.choice([0, 1, 7, 42, 1000, 2 ** 32 - 1, rnd.randrange(10 ** 6),
                               2 ** 53 + 1, 2 ** 63 + 3, 2 ** 64 - 1, rnd.getrandbits(64),
                               2 ** 53 + 2 * rnd.randrange(1000) + 1])
-            table[lab] = [rnd.choice(["fragA", "lh.pial", "b c", "frag,comma", "x" * 40])
+            table[lab] = [rnd.choice(["fragA", "lh.pial", "b c", "frag,comma", "x" * 40,
+                                      "cortex_seg.gz", "fragz.gz", "a.gz", "v1.2..gz"])
                           for _ in range(rnd.randint(0, 4))]
         obs["labels_beyond_2_53"] = int(any(lab > 2 ** 53 for lab in table))
         csv_path = os.path.join(top, "t.csv")
@@ -585,6 +592,7 @@ def gates(obs, tier):
         "noncontiguous_vertex_arrays": obs.get("noncontiguous", 0) > 50,
         "mirroring_transforms": obs.get("mirroring", 0) > 100,
         "small_determinants": obs.get("small_det", 0) > 20,
+        "integer_typed_vertex_arrays": obs.get("integer_typed_vertices", 0) > 100,
         "triangles_checked": obs.get("triangles_checked", 0) > 1000,
         "gifti_with_transform": obs.get("with_transform", 0) > 5,
         "link_files_checked": obs.get("link_files_checked", 0) > 50,
